@@ -56,6 +56,7 @@ package appctx
 //@ func LoadFirstFatalError
 //@   modifies nothing
 //@   ensures [found] found <==> has(ctxOf(appCtx).m, AppCtxFirstFatalErrorKey)
+//@   ensures [value] found ==> iface(errorType) == ctxOf(appCtx).m[AppCtxFirstFatalErrorKey]
 //@ func LoadInvokeErrorTraceData
 //@   modifies nothing
 
